@@ -963,10 +963,17 @@ func genC05(e *emitter, r *rng, tier string) {
 	for i := 0; i < m; i++ {
 		ns := numSpec{desc: fmt.Sprintf("%s:%d:%d", r.pickS([]string{"S", "C", "R"}), 2+r.intn(40), 1+r.intn(9)), length: -2, allV: true}
 		kind := r.intn(4)
+		if i%2 == 0 {
+			kind = 0 // padded Format is the cheapest and the one with the most scratch state: every other script
+		}
+		goroutines, stmts := 4, 10
+		if kind == 0 {
+			goroutines, stmts = 8, 30
+		}
 		var progs []string
-		for k := 0; k < 4; k++ {
+		for k := 0; k < goroutines; k++ {
 			var st []string
-			for j := 0; j < 10; j++ {
+			for j := 0; j < stmts; j++ {
 				switch kind {
 				case 0:
 					st = append(st, fmt.Sprintf("fmt:0:%%%d.%d%s", r.pick([]int{8, 25, 40, 70}), r.pick([]int{3, 18, 33, 60}), r.pickS([]string{"f", "e", "g"})))
